@@ -265,6 +265,23 @@ func focusedCase(g *Gen) (string, Req) {
 		}
 		sort.Strings(r.Tags)
 	case 9: // $client
+		if g.Chance(1, 5) {
+			// subnets of different prefix lengths in one list, the shorter prefix ABOVE the client address and a longer one
+			// containing it (and the other way round), in any written order: every entry is considered
+			fam := Pick(g, [][3]string{{"200.0.0.0/8", "10.1.2.0/24", "10.1.2.3"}, {"172.16.0.0/12", "9.9.9.0/28", "9.9.9.9"}, {"fe80::/10", "2001:db8:1::/48", "2001:db8:1::5"},
+				{"128.0.0.0/1", "10.0.0.0/8", "10.200.1.1"}, {"10.1.2.0/24", "200.0.0.0/8", "200.1.1.1"}, {"ff00::/8", "::ffff:10.0.0.0/104", "::ffff:10.1.2.3"}})
+			vals := []string{fam[0], fam[1]}
+			if g.Bool() {
+				vals = append(vals, Pick(g, clientNets))
+			}
+			Shuffle(g, vals)
+			if g.Chance(1, 4) {
+				vals[0] = "~" + vals[0]
+			}
+			mods = append(mods, "client="+strings.Join(vals, "|"))
+			r.ClientIP = Pick(g, []string{fam[2], fam[2], neighbourIP(g, fam[1])})
+			break
+		}
 		n := 1 + g.Intn(4)
 		var vals []string
 		for i := 0; i < n; i++ {
